@@ -413,12 +413,13 @@ def _is_suppress(e: ast.expr) -> bool:
     return False
 
 
-_cfg_cache: dict[int, CFG] = {}
+_cfg_cache: dict[int, tuple[ast.AST, CFG]] = {}
 
 
 def cfg_of(fn_node: ast.FunctionDef | ast.AsyncFunctionDef) -> CFG:
-    c = _cfg_cache.get(id(fn_node))
-    if c is None:
-        c = CFG(fn_node)
-        _cfg_cache[id(fn_node)] = c
-    return c
+    # the node is kept alive alongside its CFG, so its id() cannot be reused by another tree's node
+    ent = _cfg_cache.get(id(fn_node))
+    if ent is None or ent[0] is not fn_node:
+        ent = (fn_node, CFG(fn_node))
+        _cfg_cache[id(fn_node)] = ent
+    return ent[1]
